@@ -4,6 +4,7 @@ import sys
 from rx.scheduler import ImmediateScheduler
 import rxsci as rs
 import rxsci.container.json as J
+import rxsci.framing.line as LINE
 from vp import drivers as D
 from vp.engine import Ob
 from vp.harness import mk, fail
@@ -55,11 +56,11 @@ def lines(p):
         with Env(as_bytes):
             out = []
             D.src(items).pipe(J.dump()).subscribe(on_next=out.append, on_error=lambda e: out.append(('ERR', repr(e))))
-            for l in out:
-                if not isinstance(l, str) or not l.endswith('\n') or '\n' in l[:-1]:
-                    return fail(stage='dump', items=items, observed=out)
+            if len(out) != len(items) or not all(isinstance(l, str) for l in out):
+                return fail(stage='dump', problem='one text item per object expected', items=items, observed=out)
+            # the dumped lines go through the real line un-framer (the composition load_from_file uses): raw newlines inside an object must not break the framing
             got = []
-            D.src([l[:-1] for l in out]).pipe(J.load()).subscribe(on_next=got.append, on_error=lambda e: got.append(('ERR', repr(e))))
+            D.src(out).pipe(LINE.unframe(), J.load()).subscribe(on_next=got.append, on_error=lambda e: got.append(('ERR', repr(e))))
         return got == items or fail(items=items, lines=out, observed=got, expected=items)
     return mk('json_lines', sig, pre, body)
 
